@@ -95,6 +95,11 @@ fn base_cfg(t: &mut Tape) -> GenCfg {
     cfg.f11_safe = false;
     cfg.decor = t.weighted(&[2, 5, 3]) as u8;
     cfg.budget = 6 + t.below(30);
+    if t.chance(1, 12) {
+        // wide documents (dozens of tables)
+        cfg.many_sections = true;
+        cfg.budget = 250 + t.below(250);
+    }
     cfg
 }
 
